@@ -32,3 +32,44 @@ pub open spec fn exit_made_whole(st: StoreV, st2: StoreV, c: Seq<char>, msg: Exe
         _ => true,
     }
 }
+
+// ---- C13: every coherent configuration is accepted
+pub open spec fn fee_pair_live(account: Option<String>, rate: Option<String>) -> bool {
+    (account is Some && rate is Some && !(account->0@ == ""@ && rate->0@ == ""@)) ==> parse_dec(rate->0@) is Some && valid_addr(account->0@)
+}
+pub open spec fn inst_live(m: InstantiateMsg) -> bool {
+    inst_only_if(m) && fee_pair_live(m.ask_fee_account, m.ask_fee_rate) && fee_pair_live(m.bid_fee_account, m.bid_fee_rate)
+}
+
+// ---- C07: every request meeting the admission conditions is accepted
+pub open spec fn funds_escrow_ok(funds: Seq<Coin>, amount: int, denom: Seq<char>) -> bool {
+    if restricted(denom) { funds.len() == 0 } else { crate::shim::flat::funds_are(funds, amount, denom) }
+}
+pub open spec fn attrs_query_live(sender: Seq<char>, required: Seq<String>) -> bool {
+    required.len() > 0 ==> has_all_attrs(sender, required)
+}
+pub open spec fn create_ask_live(st: StoreV, a: AskOrderV1, sender: Addr, funds: Seq<Coin>) -> bool {
+    &&& wf(st) && a.class is Basic && a.owner.s@ == sender.s@
+    &&& create_ask_only_if(st, a, sender.s@)
+    &&& funds_escrow_ok(funds, a.size.v as int, a.base@)
+    &&& fits(pmul(pq(a.price@), pow10(info_of(st).price_precision.v as int)))      // A-RANGE
+}
+pub open spec fn create_bid_live(st: StoreV, b: BidOrderV3, sender: Addr, funds: Seq<Coin>) -> bool {
+    &&& wf(st) && b.owner.s@ == sender.s@
+    &&& b.accumulated_base.v == 0 && b.accumulated_quote.v == 0 && b.accumulated_fee.v == 0 && b.quote.amount.v >= 1
+    &&& create_bid_only_if(st, b, sender.s@)
+    &&& funds_escrow_ok(funds, b.quote.amount.v + coin_amt(b.fee), b.quote.denom@)
+    &&& fits(pmul(pq(b.price@), pow10(info_of(st).price_precision.v as int)))      // A-RANGE
+    &&& fits(pmul(bid_fee_rate(info_of(st)), b.quote.amount.v as int))              // A-RANGE
+}
+
+/// a create request at the API that meets every admission condition
+pub open spec fn create_request_ok(st: StoreV, sender: Addr, funds: Seq<Coin>, msg: ExecuteMsg) -> bool {
+    match msg {
+        ExecuteMsg::CreateAsk { id, base, quote, price, size } =>
+            exec_msg_valid(msg) && create_ask_live(st, mk_ask(id, base, quote, price, size, sender), sender, funds),
+        ExecuteMsg::CreateBid { id, base, fee, price, quote, quote_size, size } =>
+            exec_msg_valid(msg) && create_bid_live(st, mk_bid(id, base, fee, price, quote, quote_size, size, sender), sender, funds),
+        _ => false,
+    }
+}
